@@ -93,6 +93,15 @@ def observables(rng, f, x_factory):
     obs.append(('prune_twigs', dict(size=size, recursive=rec),
                 lambda x: sorted(int(i) for i in navis.prune_twigs(x, size=size, recursive=rec, inplace=False).nodes.node_id.values)))
     obs.append(('cable_length', {}, lambda x: float(navis.morpho.cable_length(x))))
+    # cable length under a node mask (boolean array / callable): edges leaving the mask are not counted, whatever the backend
+    msk = [bool(v) for v in rng.random(len(ids)) < 0.6]
+    if not any(msk):
+        msk[0] = True
+    mkind = str(rng.choice(['array', 'callable']))
+    mset = set(i for i, m_ in zip(ids, msk) if m_)
+    obs.append(('cable_length(mask)', dict(mask=[i for i in ids if i in mset], given_as=mkind),
+                lambda x: float(navis.morpho.cable_length(x, mask=(np.array([int(i) in mset for i in x.nodes.node_id.values]) if mkind == 'array'
+                                                                     else (lambda nd: nd.node_id.isin(mset).values))))))
     obs.append(('parent_dist', {}, lambda x: {int(i): float(v) for i, v in zip(x.nodes.node_id.values, navis.morpho.mmetrics.parent_dist(x, root_dist=0))}))
     mode = str(rng.choice(['centrifugal', 'centripetal', 'sum']))
     def sfc(x):
@@ -102,6 +111,9 @@ def observables(rng, f, x_factory):
     obs.append(('synapse_flow_centrality', dict(mode=mode), sfc))
     r = int(ids[int(rng.integers(len(ids)))])
     obs.append(('reroot', dict(new_root=r), lambda x: F.table_of(navis.reroot_skeleton(x, r, inplace=False))))
+    rs = [int(v) for v in rng.choice(ids, size=min(len(ids), 3), replace=False)]
+    obs.append(('reroot(several)', dict(new_roots=rs), lambda x: F.table_of(navis.reroot_skeleton(x, rs, inplace=False))))
+    obs.append(('reroot(several, method, in place)', dict(new_roots=rs), lambda x: (lambda y: (y.reroot(rs, inplace=True), F.table_of(y))[1])(x.copy())))
     nonroot = [i for i in ids if par[i] >= 0]
     if nonroot and sum(1 for p in f['parents'] if p < 0) == 1:
         c = int(nonroot[int(rng.integers(len(nonroot)))])
@@ -138,7 +150,7 @@ def run(ctx):
                 with F.backend(be):
                     x = F.mk_neuron(f, connectors=cn.copy())
                     results[be] = guarded(fn, x)
-            ctx.case((str(f['ids']), str(f['parents']), str(f['xyz']) if name in ('geodesic_matrix', 'dist_between', 'prune_twigs', 'cable_length', 'parent_dist', 'heal') else '', name, str(params)),
+            ctx.case((str(f['ids']), str(f['parents']), str(f['xyz']) if name in ('geodesic_matrix', 'dist_between', 'prune_twigs', 'cable_length', 'cable_length(mask)', 'parent_dist', 'heal') else '', name, str(params)),
                      nontrivial=nt, sample=dict(forest=f, observable=name, params=params) if f['n'] < 6 else None)
             ctx.count('observable:' + name)
             desc = dict(forest=f, synapses=dict(pre=pre, post=post), observable=name, params=params)
